@@ -79,6 +79,7 @@ def run(ctx, report: Report) -> None:
     _, p_el, p_attr, p_prefix = params
     _, sn = src.func('css_match._DocumentNav.split_namespace')
     from ..interp import Obj, Raised, call_function
+    from ..tables import NSKey, el_obj, matcher_obj
     try:
         spl = [call_function(ctx, 'css_match._DocumentNav.split_namespace', [Obj(_name='el'), k_], {}, {}, None)
                for k_ in (Obj(_name='NamespacedAttribute', namespace='NS', name='local'), 'plain')]
@@ -97,26 +98,21 @@ def run(ctx, report: Report) -> None:
             nsmap = {'p': U1}
             for el_keys in elements:
                 attrs = [(k, f'value-of-{k}') for k in el_keys]
-                env = {'self': miniev.Sym('self'), p_el: miniev.Sym('el'), p_attr: 'a', p_prefix: prefix}
-                calls = {
-                    'self.supports_namespaces': lambda: True,
-                    'self.namespaces.get': lambda k, d=None, _m=nsmap: _m.get(k, d),
-                    'self.iter_attributes': lambda e, _a=attrs: list(_a),
-                    'self.split_namespace': lambda e, k: ATTR_KINDS[k],
-                    'util.lower': ascii_lower,
-                }
-
-                def consts(name, _x=is_xml):
-                    if name == 'self.is_xml':
-                        return _x
-                    if name == 'self.namespaces':
-                        return nsmap
-                    raise KeyError(name)
+                # the real accessors (iter_attributes, split_namespace, get_tag_ns ...) are interpreted too; only the value
+                # normalisation is replaced by a tagging stand-in so that a raw (un-normalised) result is visible
+                el = el_obj('e', attrs={(NSKey(k, *ATTR_KINDS[k]) if ATTR_KINDS[k][0] is not None else k): v for k, v in attrs},
+                            is_xml=is_xml)
+                me = matcher_obj(is_xml=is_xml, is_html=not is_xml, namespaces=nsmap)
+                stubs = {'css_match.CSSMatch.supports_namespaces': lambda: True,
+                         'css_match._DocumentNav.normalize_value': lambda v: ('normalised', v)}
                 try:
-                    got = miniev.MiniEval(env, consts=consts, calls=calls).run(fn.body)
+                    got = call_function(ctx, 'css_match.CSSMatch.match_attribute_name', [el, 'a', prefix], {}, stubs, me)
+                except Raised as e:
+                    got = f'raises {e.exc_name}'
                 except miniev.Unsupported as e:
                     raise AnalysisError(f'match_attribute_name: outside the evaluable fragment: {e}')
                 exp = ref_attr(attrs, prefix, nsmap, is_xml)
+                exp = None if exp is None else ('normalised', exp)
                 n += 1
                 r1.instance({'xml': is_xml, 'selector': f'[{prefix + "|" if prefix else ""}a]', 'attributes': el_keys,
                              'returns': got, 'expected': exp}, key=f'{is_xml}|{prefix}|{el_keys}', sample_cap=4)
@@ -129,7 +125,7 @@ def run(ctx, report: Report) -> None:
         r1.violation('css_match.CSSMatch.match_attribute_name decision table', mmod.where(fn),
                      f'match_attribute_name: for selector {sel} (map p -> {U1}; {"XML" if is_xml else "namespace-aware HTML"}) on an '
                      f'element with attributes {el_keys} (x:* in {U1}, y:*/p:* in {U2}) the code yields {got!r}, the property '
-                     f'prescribes {exp!r}')
+                     f'prescribes {exp!r} (the value of the designated attribute, normalised to str / list of str)')
     report.analysed['attribute_cases'] = n
 
     # ---- R2 ------------------------------------------------------------------------------------------
